@@ -99,7 +99,9 @@ EvMask(ts) == LET rv == RefValues(ts) IN
               ELSE [i \in 1..Len(Envs) |-> ~IsUnrep(rv[i])]
 Emit == Complete =>
     /\ LET m == ModelVerdict(toks) IN
-       (m.v \in {"OK", "SKIP"} \/ PrintT(ToJson([design |-> m.v, dtoks |-> toks])))
+       (m.v \in {"OK", "SKIP"} \/ PrintT(ToJson([design |-> m.v, dtoks |-> toks, devs |-> ActiveDevs(toks)])))
+    /\ LET q == RepairedVerdict(toks) IN
+       (q.v \in {"OK", "SKIP"} \/ PrintT(ToJson([unnamed |-> q.v, utoks |-> toks])))
     /\ PrintT(ToJson([toks |-> toks, garbled |-> FALSE, text |-> Text(toks, FALSE), ev |-> EvMask(toks)]))
     \* the same token string written without the blanks the lexical grammar does not need
     /\ (Text(toks, TRUE) = Text(toks, FALSE)
